@@ -27,14 +27,14 @@ def nsets(s):
 
 def key_closure(fl, mon, thorough, **kw):
     sets = KEY_SETS_THOROUGH if thorough else KEY_SETS_QUICK
-    return dict(flavour=fl, suite="key-closure", args=dict(mon=mon, sets=sets, max_states=3000000 if thorough else 400000), shards=nsets(sets), timeout=3000 if thorough else 240, **kw)
+    return dict(flavour=fl, suite="key-closure", args=dict(mon=mon, sets=sets, max_states=3000000 if thorough else 400000), shards=nsets(sets), timeout=3000 if thorough else 120, **kw)
 
 
 def ord_closure(fl, mon, thorough, sets_q=ORD_SETS_QUICK, sets_t=ORD_SETS_THOROUGH, **extra):
     sets = sets_t if thorough else sets_q
     a = dict(mon=mon, sets=sets, max_states=3000000 if thorough else 300000)
     a.update(extra)
-    return dict(flavour=fl, suite="ord-closure", args=a, shards=nsets(sets), timeout=3000 if thorough else 240)
+    return dict(flavour=fl, suite="ord-closure", args=a, shards=nsets(sets), timeout=3000 if thorough else 120)
 
 
 def _noexport(a):
@@ -49,7 +49,7 @@ def key_random(fl, mon, coll, budget, thorough, shards=16, **extra):
     a = dict(mon=mon, coll=coll)
     a.update(extra)
     _noexport(a)
-    j = dict(flavour=fl, suite="key-random", args=a, shards=shards, budget=budget * (8 if thorough else 1), timeout=3000 if thorough else 240)
+    j = dict(flavour=fl, suite="key-random", args=a, shards=shards, budget=budget * (8 if thorough else 1), timeout=3000 if thorough else 120)
     if "seed_offset" in a:
         j["seed_offset"] = a.pop("seed_offset")
     if "mem_limit" in a:
@@ -60,7 +60,7 @@ def key_random(fl, mon, coll, budget, thorough, shards=16, **extra):
 def ord_random(fl, mon, coll, budget, thorough, shards=16, **extra):
     a = dict(mon=mon, coll=coll)
     a.update(extra)
-    j = dict(flavour=fl, suite="ord-random", args=a, shards=shards, budget=budget * (8 if thorough else 1), timeout=3000 if thorough else 240)
+    j = dict(flavour=fl, suite="ord-random", args=a, shards=shards, budget=budget * (8 if thorough else 1), timeout=3000 if thorough else 120)
     if "seed_offset" in a:
         j["seed_offset"] = a.pop("seed_offset")
     return j
@@ -81,7 +81,7 @@ def plan(prop, tier, seed):
     if p is None:
         return None
     p.setdefault("level", "exploration")
-    p.setdefault("timeout", 3000 if T else 240)
+    p.setdefault("timeout", 3000 if T else 120)
     return p
 
 
@@ -141,7 +141,7 @@ def _plan(prop, T):
                 ord_random("dbg", "structure,removal_stats", "maptree+settree+maptree-int+settree-int", 3200, T),
                 key_random("dbg", "structure", "tree", 3200, T),
                 ord_random("rel", "structure,removal_stats", "maptree+settree", 3200, T),
-                dict(flavour="rel", suite="big", args=dict(max_n=4000000 if T else 200000), shards=16, timeout=3400 if T else 300),
+                dict(flavour="rel", suite="big", args=dict(max_n=4000000 if T else 200000), shards=16, timeout=3400 if T else 150),
             ],
             rule="evaluation = one hooked arena snapshot validated after a completed public call (links, strict key order, no red-red edge, equal black count, sentinel unlinked, height <= 2*log2(n+1)+1); distinct non-trivial = closed canonical shapes with >= 2 entries + distinct pre-removal configurations (children, colours of node/sibling/nephews/parent, side) + distinct (n, height) pairs of large trees",
             require={
@@ -195,10 +195,11 @@ def _plan(prop, T):
                 ord_random("dbg", "handle", "maptree+settree+maptree-int+settree-int", 4800, T),
                 ord_random("rel", "handle", "maptree+settree", 4800, T),
                 ord_random("asan", "handle", "maptree+settree", 1600, T),
+                dict(flavour="rel", suite="big", args=dict(max_n=4000000 if T else 400000, probes="handle"), shards=16, timeout=3400 if T else 150),
                 miri("ord-random", 64, 8, T, mon="handle", coll="maptree+settree", **MIRI_ORD),
             ],
             rule="evaluation = one first_index_less / first_index_less_by (3 monotone comparators) whose handle is dereferenced and compared with the reference predecessor, or one write / delete through such a handle followed by a lookup sweep; distinct non-trivial = distinct (reference key set, operation, probe) + closed canonical shapes",
-            require={"handle_compared_entry": 50000, "handle_compared_sentinel": 3000, "op_write_through_handle": 5000, "op_delete_by_handle": 5000, "states": 3000},
+            require={"handle_compared_entry": 50000, "handle_compared_sentinel": 3000, "op_write_through_handle": 5000, "op_delete_by_handle": 5000, "states": 3000, "big_handle_probes": 20000, "max_entries_built": 300000},
             exhaustive_scope="every reachable shape over the listed universes x every probe -1..=2u+1 x {key form, 3 comparators, read, write, delete}",
             assumptions=["reference: std BTreeMap", "handles used only until the next deletion"],
         )
@@ -209,10 +210,11 @@ def _plan(prop, T):
                 ord_random("dbg", "steps", "settree+settree-int", 4800, T),
                 ord_random("asan", "steps", "settree+settree-int", 1600, T),
                 ord_random("rel", "steps", "settree", 3200, T),
+                dict(flavour="rel", suite="big", args=dict(max_n=4000000 if T else 400000, probes="steps"), shards=16, timeout=3400 if T else 150),
                 miri("ord-random", 64, 8, T, mon="steps", coll="settree+settree-int", **MIRI_ORD),
             ],
             rule="evaluation = one index_after / index_before from the handle of a stored key, dereferenced and compared with the next larger / smaller reference key (empty sentinel at the ends), or one full forward / backward walk compared with the reference order; distinct non-trivial = distinct (reference key set, operation, key) + closed canonical shapes",
-            require={"step_compared_at_end": 3000, "step_compared_inner": 20000, "op_walk_forward": 500, "op_walk_backward": 500, "states": 1500},
+            require={"step_compared_at_end": 3000, "step_compared_inner": 20000, "op_walk_forward": 500, "op_walk_backward": 500, "states": 1500, "big_step_probes": 20000},
             exhaustive_scope="every reachable SetTree shape over the listed universes x every stored key x both directions, plus both full walks",
             assumptions=["reference: std BTreeMap"],
         )
@@ -255,7 +257,7 @@ def _plan(prop, T):
                 ord_random("rel", "slots", "maptree+settree+maptree-int", 6400, T, profile="large-bounded-population,medium,clear-and-reuse", seed_offset=5),
                 key_random("dbg", "slots", "tree", 3200, T),
                 key_random("rel", "slots", "tree", 4800, T, profile="large,medium,insert-heavy-long-lived,clear-heavy", seed_offset=6),
-                dict(flavour="rel", suite="big", args=dict(max_n=1000000 if T else 100000), shards=16, timeout=3400 if T else 300),
+                dict(flavour="rel", suite="big", args=dict(max_n=1000000 if T else 100000), shards=16, timeout=3400 if T else 150),
             ],
             rule="evaluation = one hooked snapshot in which {sentinel} + reachable slots + free list must partition 0..buffer.len() (and everything is free after clear), with buffer.len() <= 4*(peak+1)+max(hint,8); distinct non-trivial = closed canonical shapes + distinct (reference contents, operation) of the random histories",
             require={"snapshots_checked": 200000, "op_clear": 1000, "max_buffer_len_seen": 2000, "states": 3000},
@@ -363,7 +365,7 @@ def _plan(prop, T):
     if prop == "C19":
         return dict(
             jobs=[
-                dict(flavour="rel", suite="export-size", args=dict(max_n=4000000 if T else 300000), shards=16, mem_limit=(24 if T else 8) * GB, timeout=3400 if T else 300),
+                dict(flavour="rel", suite="export-size", args=dict(max_n=4000000 if T else 300000), shards=16, mem_limit=(24 if T else 8) * GB, timeout=3400 if T else 150),
                 key_closure("dbg", "capacity", T),
                 key_random("rel", "capacity", "both", 4800, T, mem_limit=8 * GB),
             ],
